@@ -3,6 +3,7 @@ package mqtt
 // C19: error causes stay inspectable through the library's wrapping.
 
 import (
+	"time"
 	"context"
 	"errors"
 	"fmt"
@@ -154,4 +155,68 @@ func VerifH_C19_Timeout() {
 	}
 	var rte2 *RequestTimeoutError
 	verifAssert(errors.As(w, &rte2), "C19.wrapped_timeout_is_request_timeout_error")
+}
+
+// The caller's own context: a call made through the retrying client (Ping takes the caller's context
+// straight to the base client) that ends because the caller cancelled, or because the caller's own
+// deadline passed, reports that context's error — findable with errors.Is through the wrapping — whether
+// or not a response timeout is configured; and it is a RequestTimeoutError only when the configured
+// response timeout is what expired.
+func VerifH_C19_CallerContext() {
+	conn := newVconn("c0")
+	conn.answerConnect([]byte{0x20, 2, 0, 0})
+	cli := &BaseClient{Transport: conn}
+	_, cerr := cli.Connect(context.Background(), "cid")
+	verifAssert(cerr == nil, "C19.harness_connect")
+	rc := &RetryClient{cli: cli}
+	unit := int64(1000000000)
+	if !verifSymbolic() {
+		unit = 20000000
+	}
+	switch verifChoice("responsetimeout", 3) {
+	case 1:
+		rc.ResponseTimeout = time.Duration(10 * unit) // configured, does not expire first
+	case 2:
+		rc.ResponseTimeout = time.Duration(unit) // configured, expires first
+	}
+	how := verifChoice("caller", 3) // 0 cancels, 1 own deadline, 2 waits (only the response timeout can end the call)
+	if how == 2 && rc.ResponseTimeout == 0 {
+		return
+	}
+	ctx, cancel := context.WithCancel(context.Background())
+	callerEnded := false
+	switch how {
+	case 0:
+		go func() {
+			verifPause()
+			verifLock()
+			callerEnded = true
+			verifUnlock()
+			cancel()
+		}()
+	case 1:
+		var c2 context.CancelFunc
+		ctx, c2 = context.WithTimeout(ctx, time.Duration(3*unit))
+		defer c2()
+	}
+	defer cancel()
+	err := rc.Ping(ctx) // the broker never answers
+	verifReach("ping-returned")
+	verifAssert(err != nil, "C19.unanswered_ping_reports_error")
+	var rte *RequestTimeoutError
+	isRTE := errors.As(err, &rte)
+	verifLock()
+	cancelledFirst := callerEnded
+	verifUnlock()
+	// which of the two ended the call: the response timeout, unless the caller's context ended before it expired
+	timeoutFirst := rc.ResponseTimeout != 0 && (how == 2 || how == 1 && rc.ResponseTimeout < time.Duration(3*unit) || how == 0 && !cancelledFirst)
+	if timeoutFirst {
+		verifReach("response-timeout")
+		verifAssert(isRTE, "C19.expired_response_timeout_is_request_timeout_error")
+	} else {
+		verifReach("caller-context")
+		verifAssert(errors.Is(err, ctx.Err()), "C19.caller_context_error_inspectable")
+		verifAssert(!isRTE, "C19.request_timeout_error_only_for_response_timeout")
+	}
+	cli.Close()
 }
